@@ -153,6 +153,7 @@ func checkC14(c *Ctx, r *Report) {
 		}
 	})
 	r.Floor("D8-split", nStores, 3)
+	checkSplitIndependence(c, r, split, parse, "D8-split")
 
 	// ---- F13 ----
 	expectTemplate := map[string]string{"Info.Prerelease": "~", "Info.VersionMetadata": "+", "Info.Release": "-"}
@@ -231,4 +232,34 @@ func checkC14(c *Ctx, r *Report) {
 		keys = append(keys, k)
 	}
 	sort.Strings(keys)
+}
+
+// checkSplitIndependence: on the success edge of the parse, the prerelease is
+// filled whenever it is not configured — whatever the metadata setting — and
+// vice versa (no component of the version string is lost).
+func checkSplitIndependence(c *Ctx, r *Report, split *ssa.Function, parse *ssa.Call, rule string) {
+	perr, _ := errValueOf(parse)
+	if perr == nil {
+		return
+	}
+	for _, tc := range []struct{ empty, set string }{{"Prerelease", "VersionMetadata"}, {"VersionMetadata", "Prerelease"}} {
+		ev := newEvaluator(c)
+		ev.Bind = map[ssa.Value]AV{perr: avConst{nil}}
+		ev.NoKill = true // the fills are stores to the very fields tested just before them
+		info := newAObj("info")
+		info.Fields[tc.empty] = cStr("")
+		info.Fields[tc.set] = cStr("configured")
+		ev.Defaults[c.infoPtrKey()] = info
+		fr := ev.Explore(split, make([]AV, len(split.Params)))
+		ok := fr.MustReach(func(in ssa.Instruction, _ *Frame) bool {
+			st, isS := in.(*ssa.Store)
+			if !isS {
+				return false
+			}
+			p, root := addrPath(st.Addr)
+			return root != nil && p == tc.empty && rootTypeName(root.Type()) == "Info"
+		})
+		r.Check(ok, rule, fmt.Sprintf("semver split: %s taken from the version string when only %s is configured", tc.empty, tc.set), c.pos(split.Pos()),
+			"with the parse successful, an unconfigured component must be filled from the version string on every path, independently of the other component; otherwise part of the version is silently lost")
+	}
 }
